@@ -1,29 +1,288 @@
 import DoltVerif.Model.Names
+import DoltVerif.Lemmas.NamesRef
+import DoltVerif.Lemmas.NamesSpec
 /-!
 C44 — Names and revision specs parse as documented.  Property theorems only (helper lemmas live in
-`Lemmas/`).  Statements are about `Model/Names.lean`, a transliteration tied to the Go source by
-`Tie/Names.lean` (regenerated table/regex facts) and by the `names` correspondence harness.
+`Lemmas/NamesRef.lean`, `Lemmas/NamesSpec.lean`).  Statements are about `Model/Names.lean`, a
+transliteration tied to the Go source by `Tie/Names.lean` (regenerated table/regex facts) and by the
+`names` correspondence harness.  All statements quantify over *all* byte strings.
 -/
+set_option linter.unusedSimpArgs false
 namespace DoltVerif.C44
 open DoltVerif.Names
 
-/-- The documented set of forbidden bytes: ASCII control characters (incl. DEL) and
-`SP : ? [ \ ^ ~ *`. -/
-def documentedForbidden (b : Nat) : Bool :=
-  b < 32 || b == 127 || b == 0x20 || b == 0x3a || b == 0x3f || b == 0x5b || b == 0x5c ||
-  b == 0x5e || b == 0x7e || b == 0x2a
+/-! ## 1. the action table -/
 
 /-- `table_matches_rules`: over the whole 256-entry table, the table marks exactly the documented
-forbidden bytes as illegal, `/` as end-of-component, `.` and `{` as the look-behind characters and
-everything else (including all bytes ≥ 128, rejected separately as non-ASCII) as ok. -/
+forbidden bytes (ASCII control incl. DEL, `SP : ? [ \ ^ ~ *`) as illegal, `/` as end-of-component,
+`.` and `{` as the look-behind characters and everything else (including all bytes ≥ 128, rejected
+separately as non-ASCII) as ok. -/
 theorem table_matches_rules : ∀ b : Fin 256,
     action (UInt8.ofNat b.val) =
       if documentedForbidden b.val then .illegal
       else if b.val == 0x2f then .eof
       else if b.val == 0x2e then .dot
       else if b.val == 0x7b then .leftCurly
-      else .ok := by decide +kernel
+      else .ok := action_table
 
 example : action 0x2a = .illegal ∧ action 0x61 = .ok := by decide
+
+/-! ## 2. the documented rule list, and `ValidateDatasetId` decides exactly it -/
+
+/-- The rule list of the comment above `validateDatasetIdComponent` / `ValidateDatasetId`, written
+out: non-empty; not `@`; does not end in `/` or `.`; ASCII only with no control or forbidden byte;
+and every `/`-separated component does not start with `.`, has no `..`, no `@{`, does not end in
+`.lock`.  (`components`, `hasInfix`, `hasSuffix` are pinned down by `components_join`,
+`components_no_slash`, `hasInfix_iff` below.) -/
+def documentedDatasetId (s : Bytes) : Bool :=
+  !s.isEmpty && s != [0x40] && !hasSuffix s [0x2f] && !hasSuffix s [0x2e] &&
+  s.all okByte && (components s).all documentedComponent
+
+/-- the spec vocabulary means what it says: `components` is *the* split at `/` … -/
+theorem components_join (s : Bytes) : joinSlash (components s) = s := Names.components_join s
+theorem components_no_slash (s : Bytes) : ∀ c ∈ components s, (0x2f : UInt8) ∉ c :=
+  Names.components_no_slash s
+/-- … and `hasInfix` is the substring relation. -/
+theorem hasInfix_iff (s pat : Bytes) : hasInfix s pat = true ↔ pat <:+: s := Names.hasInfix_iff s pat
+
+/-- The fuel handed to the component loop by `validateDatasetId` always suffices: with any fuel
+larger than the input length the loop computes "every component is fine". -/
+theorem validateLoop_fuel_suffices (s : Bytes) (fuel : Nat) (h : s.length < fuel) :
+    validateLoop fuel s = (components s).all compOk :=
+  validateLoop_eq s.length s fuel (Nat.le_refl _) h
+
+/-- **`ValidateDatasetId` accepts exactly the documented names — for every byte string.** -/
+theorem validate_eq_documented (s : Bytes) : validateDatasetId s = documentedDatasetId s := by
+  unfold validateDatasetId documentedDatasetId
+  rw [validateLoop_fuel_suffices s (s.length + 1) (Nat.lt_succ_self _), all_compOk]
+  by_cases h1 : s.isEmpty = true
+  · simp [h1]
+  · by_cases h2 : (s == [0x40]) = true
+    · have : (s != [0x40]) = false := by simp [bne, h2]
+      simp [h1, h2, this]
+    · have : (s != [0x40]) = true := by simp [bne, h2]
+      by_cases h3 : (hasSuffix s [0x2f] || hasSuffix s [0x2e]) = true
+      · simp only [h1, h2, h3, this, Bool.false_eq_true, if_false, if_true]
+        rcases Bool.or_eq_true _ _ |>.mp h3 with h | h <;> simp [h]
+      · have h3' := Bool.or_eq_false_iff.mp (eq_false_of_ne_true h3)
+        simp [h1, h2, h3, this, h3'.1, h3'.2]
+
+example : documentedDatasetId [0x6d,0x61,0x69,0x6e] = true ∧               -- "main"
+    documentedDatasetId [0x61,0x2f,0x2f,0x62] = true ∧                      -- "a//b" (a dataset id, not a branch)
+    documentedDatasetId [0x61,0x2e,0x2e,0x62] = false ∧                     -- "a..b"
+    documentedDatasetId [0x61,0x2e,0x6c,0x6f,0x63,0x6b,0x2f,0x62] = false ∧ -- "a.lock/b"
+    documentedDatasetId [0x61,0x40,0x7b] = false := by decide               -- "a@{"
+
+/-! ## 3. branch names -/
+
+/-- the reserved shapes: empty, `HEAD`, `-`, a 32-character base32 commit hash, anything containing
+`//`, starting with `/` or ending with `/`. -/
+def reserved (s : Bytes) : Bool :=
+  s == [] || s == [0x48,0x45,0x41,0x44] || s == [0x2d] ||
+  (s.length == 32 && s.all (fun b => (0x30 ≤ b.toNat && b.toNat ≤ 0x39) || (0x61 ≤ b.toNat && b.toNat ≤ 0x76))) ||
+  hasInfix s [0x2f,0x2f] || [0x2f].isPrefixOf s || hasSuffix s [0x2f]
+
+/-- **A branch name is accepted exactly when it satisfies the documented ref-name rules and is not
+reserved — for every byte string.** -/
+theorem validate_iff_documented (s : Bytes) :
+    isValidBranchName s = (documentedDatasetId s && !reserved s) := by
+  unfold isValidBranchName
+  rw [validate_eq_documented]
+  have : invalidBranchNameRegex s = reserved s := by
+    unfold invalidBranchNameRegex reserved looksLikeHash
+    cases s <;> rfl
+  rw [this, Bool.and_comm]
+
+example : isValidBranchName [0x6d,0x61,0x69,0x6e] = true ∧ isValidBranchName [0x48,0x45,0x41,0x44] = false := by
+  decide
+
+/-! ## 4. ancestor specs -/
+
+/-- the fuel `SplitAncestorSpec` passes to `parseInstructions` always suffices: any larger fuel gives
+the same answer -/
+theorem parseInstructions_fuel_suffices (s : Bytes) (f : Nat) (h : s.length < f) :
+    parseInstructions f s = parseI s := parse_eq_parseI s f h
+
+/-- **`parseInstructions`, fuel-free**: empty input is the empty walk; otherwise the first byte must
+be `^` or `~`, followed by an optional decimal number `n` (default 1; a number ≥ 2^63 is the
+`strconv.Atoi` error); `^n` is first parent (`n = 1`) or second parent (`n = 2`), any other `n` is
+`invalid ancestor spec`; `~n` is `n` first-parent steps; anything else is `Invalid HEAD spec`. -/
+theorem parseInstructions_spec :
+    parseI [] = .ok [] ∧
+    ∀ (c : UInt8) (rest : Bytes),
+      parseI (c :: rest) = parseStep c rest (parseI (rest.dropWhile isDigit)) :=
+  ⟨parseI_nil, parseI_cons⟩
+
+/-- the documented expansions, as instances -/
+theorem caret_expands (rest : Bytes) (h : ∀ a, rest.head? = some a → isDigit a = false) :
+    parseI (0x5e :: rest) = (match parseI rest with | .ok is => .ok (0 :: is) | .error e => .error e) := by
+  rw [parseI_cons]
+  have h1 : rest.takeWhile isDigit = [] := by
+    cases rest with
+    | nil => rfl
+    | cons a t => simp [List.takeWhile_cons, h a rfl]
+  have h2 : rest.dropWhile isDigit = rest := dropWhile_self_of_head _ _ h
+  rw [h2]
+  unfold parseStep
+  simp only [h1]
+  cases parseI rest <;> simp
+
+theorem tilde_expands (rest : Bytes) (h : ∀ a, rest.head? = some a → isDigit a = false) :
+    parseI (0x7e :: rest) = (match parseI rest with | .ok is => .ok (0 :: is) | .error e => .error e) := by
+  rw [parseI_cons]
+  have h1 : rest.takeWhile isDigit = [] := by
+    cases rest with
+    | nil => rfl
+    | cons a t => simp [List.takeWhile_cons, h a rfl]
+  have h2 : rest.dropWhile isDigit = rest := dropWhile_self_of_head _ _ h
+  rw [h2]
+  unfold parseStep
+  simp only [h1]
+  cases parseI rest <;> simp
+
+example : parseI [0x5e,0x32,0x7e,0x33,0x5e] = .ok [1,0,0,0,0] := by rfl   -- "^2~3^"
+example : parseI [0x5e,0x33] = .error .invalidAncestor := by rfl          -- "^3"
+example : parseI [0x78] = .error .invalidHead := by rfl                   -- "x"
+
+/-- **`split_then_walk`**: `NewCommitSpec s` succeeds exactly when the part of the trimmed string
+before the first `^`/`~` parses *on its own* as a base (HEAD / commit hash / valid branch name) and
+the part from there on parses *on its own* as an ancestor walk — and then the result is exactly
+that base with that walk.  So resolving an accepted spec = resolving its base, then walking. -/
+theorem split_then_walk (s : Bytes) (k : BaseKind) (base : Bytes) (instr : List Nat) :
+    newCommitSpec s = .ok (k, base, instr) ↔
+      (classifyBase (baseOf s) = .ok (k, base) ∧ parseI (suffixOf s) = .ok instr) := by
+  rw [newCommitSpec_eq]
+  cases h1 : parseI (suffixOf s) with
+  | error e => simp
+  | ok is =>
+    cases h2 : classifyBase (baseOf s) with
+    | error e => simp
+    | ok r =>
+      obtain ⟨k', b'⟩ := r
+      simp only [Except.ok.injEq, Prod.mk.injEq]
+      constructor
+      · rintro ⟨rfl, rfl, rfl⟩; exact ⟨⟨rfl, rfl⟩, rfl⟩
+      · rintro ⟨⟨rfl, rfl⟩, rfl⟩; exact ⟨rfl, rfl, rfl⟩
+
+example : newCommitSpec [0x20,0x6d,0x61,0x69,0x6e,0x5e,0x32,0x7e,0x20] =     -- " main^2~ "
+    .ok (.ref, [0x6d,0x61,0x69,0x6e], [1, 0]) := by rfl
+
+/-- and errors come from exactly one of the two parts -/
+theorem newCommitSpec_error (s : Bytes) (e : SpecErr) :
+    newCommitSpec s = .error e ↔
+      (parseI (suffixOf s) = .error e ∨
+        ((∃ is, parseI (suffixOf s) = .ok is) ∧ classifyBase (baseOf s) = .error e)) := by
+  rw [newCommitSpec_eq]
+  cases h1 : parseI (suffixOf s) with
+  | error e' => simp
+  | ok is =>
+    cases h2 : classifyBase (baseOf s) with
+    | error e' => simp
+    | ok r => obtain ⟨k', b'⟩ := r; simp
+
+/-- **`split_whitespace`**: `SplitAncestorSpec` slices the *untrimmed* string at an index computed on
+the trimmed one.  For an input that starts with white space this is harmless: if the trimmed string
+contains `^`/`~` the result is always an error (the slice starts at a byte that is not `^`/`~`),
+and if it does not the result is the trimmed name with the empty walk.  Never a wrong commit. -/
+theorem split_whitespace (w : UInt8) (s : Bytes) (hw : isSpace w = true) :
+    (∀ idx, indexOfSpecChar (trimSpace (w :: s)) = some idx → ∃ e, splitAncestorSpec (w :: s) = .error e) ∧
+    (indexOfSpecChar (trimSpace (w :: s)) = none → splitAncestorSpec (w :: s) = .ok (trimSpace (w :: s), [])) :=
+  ⟨fun idx h => split_leading_space w s hw idx h, fun h => split_no_spec _ h⟩
+
+example : splitAncestorSpec [0x20,0x6d,0x5e] = .error .invalidHead := by rfl   -- " m^"
+example : splitAncestorSpec [0x20,0x6d] = .ok ([0x6d], []) := by rfl          -- " m"
+
+/-- on a string without surrounding white space the split is the textbook one -/
+theorem split_trimmed_spec (c : Bytes) (hc : trimSpace c = c) :
+    splitAncestorSpec c =
+      match parseI (c.dropWhile notSpec) with
+      | .ok is => .ok (c.takeWhile notSpec, is)
+      | .error e => .error e := split_trimmed c hc
+
+/-- `NewCommitSpec` trims first, so it never reaches the odd slice: `trimSpace` is idempotent. -/
+theorem trimSpace_idempotent (s : Bytes) : trimSpace (trimSpace s) = trimSpace s := trim_trim s
+
+/-! ## 5. the base of an accepted spec, parsed on its own -/
+
+theorem space_cases (a : UInt8) (h : isSpace a = true) :
+    a = 0x20 ∨ a = 0x09 ∨ a = 0x0a ∨ a = 0x0b ∨ a = 0x0c ∨ a = 0x0d := by
+  simp only [isSpace, Bool.or_eq_true, beq_iff_eq] at h
+  rcases h with ((((h | h) | h) | h) | h) | h <;> simp [h]
+
+theorem trim_of_no_space (b : Bytes) (h : ∀ a ∈ b, isSpace a = false) : trimSpace b = b := by
+  have e1 : b.dropWhile isSpace = b := by
+    apply dropWhile_self_of_head
+    intro a ha
+    exact h a (List.mem_of_mem_head? ha)
+  have e2 : b.reverse.dropWhile isSpace = b.reverse := by
+    apply dropWhile_self_of_head
+    intro a ha
+    exact h a (List.mem_reverse.mp (List.mem_of_mem_head? ha))
+  simp only [trimSpace, e1, e2, List.reverse_reverse]
+
+/-- an accepted base (HEAD / hash / valid branch name) contains no white space -/
+theorem classify_no_space (b : Bytes) (k : BaseKind) (base : Bytes) (h : classifyBase b = .ok (k, base)) :
+    ∀ a ∈ b, isSpace a = false := by
+  intro a ha
+  cases hsp : isSpace a with
+  | false => rfl
+  | true =>
+    exfalso
+    have hc := space_cases a hsp
+    unfold classifyBase at h
+    by_cases h1 : (b.map toLower == [0x68,0x65,0x61,0x64]) = true
+    · have : toLower a ∈ b.map toLower := List.mem_map.mpr ⟨a, ha, rfl⟩
+      rw [beq_iff_eq.mp h1] at this
+      rcases hc with rfl | rfl | rfl | rfl | rfl | rfl <;> revert this <;> decide
+    · simp only [h1, Bool.false_eq_true, if_false] at h
+      by_cases h2 : looksLikeHash b = true
+      · simp only [looksLikeHash, Bool.and_eq_true, List.all_eq_true] at h2
+        have := h2.2 a ha
+        rcases hc with rfl | rfl | rfl | rfl | rfl | rfl <;> revert this <;> decide
+      · simp only [h2, Bool.false_eq_true, if_false] at h
+        by_cases h3 : isValidBranchName b = true
+        · rw [validate_iff_documented] at h3
+          simp only [Bool.and_eq_true] at h3
+          have hd := h3.1
+          simp only [documentedDatasetId, Bool.and_eq_true, List.all_eq_true] at hd
+          have := hd.1.2 a ha
+          rcases hc with rfl | rfl | rfl | rfl | rfl | rfl <;> revert this <;> decide
+        · simp [h3] at h
+
+theorem baseOf_no_spec (s : Bytes) : ∀ a ∈ baseOf s, notSpec a = true := by
+  intro a ha
+  exact takeWhile_mem notSpec _ a ha
+
+theorem takeWhile_all {α} (p : α → Bool) : ∀ (l : List α), (∀ a ∈ l, p a = true) → l.takeWhile p = l
+  | [], _ => rfl
+  | a :: t, h => by
+    simp [List.takeWhile_cons, h a (by simp), takeWhile_all p t (fun b hb => h b (by simp [hb]))]
+
+theorem dropWhile_all {α} (p : α → Bool) : ∀ (l : List α), (∀ a ∈ l, p a = true) → l.dropWhile p = []
+  | [], _ => rfl
+  | a :: t, h => by
+    simp [List.dropWhile_cons, h a (by simp), dropWhile_all p t (fun b hb => h b (by simp [hb]))]
+
+/-- **`split_then_walk`, in the property's own words**: an accepted spec's base is what
+`NewCommitSpec` makes of the base name *alone* (with the empty walk), and its walk is the separately
+parsed suffix. -/
+theorem split_then_walk_base (s : Bytes) (k : BaseKind) (base : Bytes) (instr : List Nat)
+    (h : newCommitSpec s = .ok (k, base, instr)) :
+    newCommitSpec (baseOf s) = .ok (k, base, []) ∧ parseI (suffixOf s) = .ok instr := by
+  obtain ⟨hc, hp⟩ := (split_then_walk s k base instr).mp h
+  refine ⟨?_, hp⟩
+  have htrim := trim_of_no_space _ (classify_no_space _ k base hc)
+  have hall := baseOf_no_spec s
+  have hb : baseOf (baseOf s) = baseOf s := by
+    have e : baseOf (baseOf s) = (trimSpace (baseOf s)).takeWhile notSpec := rfl
+    rw [e, htrim, takeWhile_all notSpec _ hall]
+  have hsuf : suffixOf (baseOf s) = [] := by
+    have e : suffixOf (baseOf s) = (trimSpace (baseOf s)).dropWhile notSpec := rfl
+    rw [e, htrim, dropWhile_all notSpec _ hall]
+  rw [newCommitSpec_eq, hsuf, hb, parseI_nil, hc]
+
+example : newCommitSpec [0x20,0x6d,0x61,0x69,0x6e,0x5e,0x32] = .ok (.ref, [0x6d,0x61,0x69,0x6e], [1]) ∧
+    newCommitSpec [0x6d,0x61,0x69,0x6e] = .ok (.ref, [0x6d,0x61,0x69,0x6e], []) := by
+  constructor <;> rfl
 
 end DoltVerif.C44
